@@ -35,6 +35,7 @@ var (
 	vpHarnesses []vpHarnessEnt
 	vpWidthErr  bool
 	vpPoolModeV int
+	vpFailed    []string
 )
 
 // vpReset clears per-run native state (hooked by other harness files through vpResetHooks).
@@ -88,9 +89,11 @@ func vpAssume(c bool) {
 	}
 }
 
+// vpAssert records a failed assertion and continues (the executor also continues past assertions), so
+// that every violated assertion of a path can be confirmed by one native run.
 func vpAssert(c bool, tag string) {
 	if !c {
-		panic(vpAbort{"assert", tag})
+		vpFailed = append(vpFailed, tag)
 	}
 }
 
@@ -179,3 +182,12 @@ func vpReaderWrites() uint64     { return 0 }
 func vpDisciplineEvents() uint64 { return 0 }
 
 func init() { vpResetHooks = append(vpResetHooks, func() { vpSnaps = nil }) }
+
+// FP-theory predicates on bit patterns: under the executor these become fp.lt / fp.eq / fp.isNaN of the
+// solver's floating-point theory (used only by the lemma harnesses); natively they are the machine's.
+func vpFpLt32(a, b uint32) bool { return math.Float32frombits(a) < math.Float32frombits(b) }
+func vpFpEq32(a, b uint32) bool { return math.Float32frombits(a) == math.Float32frombits(b) }
+func vpFpIsNaN32(a uint32) bool { x := math.Float32frombits(a); return x != x }
+func vpFpLt64(a, b uint64) bool { return math.Float64frombits(a) < math.Float64frombits(b) }
+func vpFpEq64(a, b uint64) bool { return math.Float64frombits(a) == math.Float64frombits(b) }
+func vpFpIsNaN64(a uint64) bool { x := math.Float64frombits(a); return x != x }
